@@ -126,6 +126,10 @@ func (n *Node) Close() {
 
 // InTurn returns the deputy key entitled to mine on `parent` at unix second `t`.
 func (n *Node) InTurn(parent *types.Block, t uint32) (*ecdsa.PrivateKey, error) {
+	if n.DM.GetDeputiesCount(parent.Height()+1) == 0 {
+		// a term without deputies: GetCorrectMiner would divide by zero — report it as an error to the scenario
+		return nil, fmt.Errorf("no deputies for height %d (term list empty)", parent.Height()+1)
+	}
 	addr, err := consensus.GetCorrectMiner(parent.Header, int64(t)*1000, int64(n.W.Timeout), n.DM)
 	if err != nil {
 		return nil, err
